@@ -694,7 +694,9 @@ def write_evidence(prop, tier, seed, results, hs, cfg, wall, nviol, extra):
         'rustc + Kani 0.68 MIR->goto codegen of /repo working tree and the harness crate; goto-cc/goto-instrument; CBMC 6.11 symbolic execution with unwinding assertions and its SMT-LIB (--smt2 --fpa) encoder',
         'interpretation per obligation (B bit-precise / U uninterpreted float ops / R floats read as reals, rounding = identity): see coverage.samples[].interpretation; R verdicts say nothing about rounding, overflow, NaN',
         'stubs: compute::linalg::is_square -> integer square root loop; f64::abs -> solver-visible fabs; C libm entry points -> uninterpreted functions (ksmt/models.c); alea RNG -> symbolic draws where used',
-        'solver: ' + engine.Z3 + f' (cap {cfg["solver_cap"]} s per query); any (error line = undecided',
+        'solvers: ' + engine.Z3 + f', z3 4.8.12 and cvc5 racing (cap {cfg["solver_cap"]} s per query unless the obligation states its own); cvc5 counts for unsat only when a model is wanted; any (error line = undecided',
+        'obligations declared with harness_s! replace linalg::solve / linalg::invert_matrix by their contracts (A x = b, A X = I on fresh symbolic results): their verdicts are relative to property C01; their bound says so',
+        'an obligation the solvers leave undecided is replayed natively on seeded candidate inputs: a failure reproduced in both build profiles is reported as a violation (interpretation "native search ..."), a search that finds nothing concludes nothing',
         'every sat model is replayed natively (dev + release) against the property tolerance before it is reported',
     ]
     for h in hs.values():
@@ -721,6 +723,8 @@ def write_evidence(prop, tier, seed, results, hs, cfg, wall, nviol, extra):
             symex_time_s=round(sum(r['symex_s'] for r in results), 1),
             symex_steps=sum(r.get('steps', 0) for r in results),
             traces_validated_against_impl=sum(1 for r in results if r.get('translator_check') == 'agree'),
+            native_search_runs=sum(r.get('native_search', 0) for r in results),
+            fallback_obligations=[r['harness'] for r in results if r.get('fallback_run')],
             translator_validation='for every obligation with a native run that reaches the harness end and meets all obligations, the same concrete input is pinned in the encoding and the obligations are re-decided there: agree = unsat',
             build=extra,
             checker_cmd=f'./check {prop} --tier {tier}',
